@@ -191,7 +191,7 @@ Definition iso_retry_stmt : Prop :=
      let '(r1, ev1, ok) := rsend r (info_msg r i pgn payload) i in
      (ok = false -> refused_frame ev1) /\ (n_drv (rn r) = [] -> ok = true)) /\
   (* (c) SendPendingInformation for one device with nothing else due: re-attempts exactly when the time has come *)
-  (forall r i, 0 <= i < dev_count (rn r) -> d_tp_msg (get_dev (rn r) i) = None ->
+  (forall r i, 0 <= i < dev_count (rn r) -> rnode_wf r -> d_tp_msg (get_dev (rn r) i) = None ->
      sched_is_time (w64 r) (now r) (x_pend_claim (get_devx r i)) = false ->
      let due_p := sched_is_time (w64 r) (now r) (x_pend_prod (get_devx r i)) in
      let due_c := sched_is_time (w64 r) (now r) (x_pend_conf (get_devx r i)) in
